@@ -1,49 +1,110 @@
-import BvaProofs.Base
-import BvaModel.Step
+import BvaProps.C07
 /-!
 # C19 — fixed-capacity overflow and bad arguments are signalled, never silently absorbed
 
-`Bvf.*` are the L1 transcriptions of `src/fixed.rs` (after repair D10 the capacity checks of `push`
-and `resize` are unconditional, so these statements do not mention the build profile: the same model
-function describes debug and release builds — the correspondence check runs both against it).
-A fixed vector is `s : Raw w` with `N = s.data.size` words, capacity `s.cap = N * w`.
+`s : Raw w` with `N = s.data.size` words is a `Bvf<I,N>`; capacity `N * w`.  After repair D10 the capacity
+checks of `push`/`resize` are unconditional, so one model function describes debug and release builds
+(the correspondence check runs both profiles against it).  The documented debug-assertion panics of
+`get`/`set`/`copy_range`/`split_off` on out-of-range indices are part of the driver's step function
+(`runOp`, flag `dbg`) and are checked by correspondence only (release behaviour is unspecified).
 -/
 namespace Bva
 variable {w : Nat}
 
-/-- `zeros(n)` panics exactly when `n` exceeds the capacity; otherwise the result has `n ≤ cap` bits in `N` words. -/
-theorem C19_zeros (N n : Nat) :
-    (Bvf.zeros w N n = .panic ↔ N * w < n) ∧
-    (∀ r, Bvf.zeros w N n = .ok r → r.length = n ∧ n ≤ N * w ∧ r.data.size = N) := by
-  unfold Bvf.zeros
-  by_cases h : n > N * w
-  · simp [h]
-  · simp [h]; omega
+/-- a fixed vector never ends up with `len > capacity`: whatever an edit returns satisfies the invariant -/
+theorem C19_never_over (v : Vec) (res : Res Vec) (spec : BV) (h : EditOk v res spec) (r : Vec) (e : res = .ok r) :
+    r.len ≤ r.capBits ∧ r.Inv := by
+  by_cases hf : v.fits spec.len
+  · obtain ⟨r', e', hr, _, _⟩ := h.1 hf
+    rw [e] at e'
+    cases e'
+    refine ⟨?_, hr⟩
+    cases r with
+    | f w s => exact hr.2.1
+    | d s => exact hr.1
+    | a c => exact Bv.len_le_capacity c hr.bvinv
+  · have := h.2 hf
+    rw [e] at this
+    cases this
 
-theorem C19_ones (N n : Nat) :
-    (Bvf.ones w N n = .panic ↔ N * w < n) ∧
-    (∀ r, Bvf.ones w N n = .ok r → r.length = n ∧ n ≤ N * w ∧ r.data.size = N) := by
-  unfold Bvf.ones
-  by_cases h : n > N * w
-  · simp [h]
-  · simp [h, size_mod2n]; omega
+/-- `zeros(n)` / `ones(n)` panic exactly when `n` exceeds the capacity -/
+theorem C19_zeros_ones (N n : Nat) (hw : 0 < w) :
+    (N * w < n → Bvf.zeros w N n = .panic ∧ Bvf.ones w N n = .panic) ∧
+    (n ≤ N * w → (∃ r, Bvf.zeros w N n = .ok r ∧ r.Inv ∧ r.length = n ∧ r.data.size = N) ∧
+                 (∃ r, Bvf.ones w N n = .ok r ∧ r.Inv ∧ r.length = n ∧ r.data.size = N)) := by
+  refine ⟨fun h => ⟨Bvf.zeros_panic N n h, Bvf.ones_panic N n h⟩, fun h => ⟨?_, ?_⟩⟩
+  · obtain ⟨r, e, hi, ha, hs⟩ := Bvf.zeros_ok (w := w) N n hw h
+    exact ⟨r, e, hi, congrArg BV.len ha, hs⟩
+  · obtain ⟨r, e, hi, ha, hs⟩ := Bvf.ones_ok (w := w) N n hw h
+    exact ⟨r, e, hi, congrArg BV.len ha, hs⟩
 
-/-- `push` panics exactly when the vector is full; otherwise the length grows by one and stays within capacity. -/
-theorem C19_push (s : Raw w) (b : Bool) :
-    (Bvf.push s b = .panic ↔ s.cap ≤ s.length) ∧
-    (∀ r, Bvf.push s b = .ok r → r.length = s.length + 1 ∧ r.length ≤ s.cap ∧ r.data.size = s.data.size) := by
-  unfold Bvf.push
-  by_cases h : s.length < s.cap
-  · rw [if_pos h]
-    refine ⟨by simp; omega, ?_⟩
-    intro r hr
-    injection hr with hr
-    subst hr
-    simp [Raw.set]
-    omega
-  · rw [if_neg h]
-    refine ⟨by simp; omega, ?_⟩
-    intro r hr
-    cases hr
+/-- `push`, `resize`, `sign_extend`, `append`, `prepend`, `insert`, `extend` on a fixed vector panic exactly when the
+resulting length would exceed the capacity, and otherwise return the L0 result (`EditOk`, proved in C07) -/
+theorem C19_growth_signalled (s : Raw w) (hv : (Vec.f w s).Inv) (x : Vec) (hx : x.Inv) (b : Bool) (n i : Nat)
+    (hi : i ≤ s.length) (bs : List Bool) :
+    (Api.push (.f w s) b = .panic ↔ s.data.size * w < s.length + 1) ∧
+    (Api.resize (.f w s) n b = .panic ↔ s.data.size * w < n) ∧
+    (Api.append (.f w s) x.any = .panic ↔ s.data.size * w < s.length + x.len) ∧
+    (Api.prepend (.f w s) x.any = .panic ↔ s.data.size * w < s.length + x.len) ∧
+    (Api.insert (.f w s) i x.any = .panic ↔ s.data.size * w < s.length + x.len) ∧
+    (Api.extend (.f w s) bs = .panic ↔ s.data.size * w < s.length + bs.length) := by
+  have key : ∀ (res : Res Vec) (spec : BV), EditOk (.f w s) res spec →
+      (res = .panic ↔ s.data.size * w < spec.len) := by
+    intro res spec h
+    constructor
+    · intro hp
+      by_cases hf : (Vec.f w s).fits spec.len
+      · obtain ⟨r, e, _⟩ := h.1 hf
+        rw [hp] at e; cases e
+      · have : ¬ (spec.len ≤ s.data.size * w) := hf
+        omega
+    · intro hlt
+      exact h.2 (by show ¬ (spec.len ≤ s.data.size * w); omega)
+  have hxl : x.abs.len = x.len := Vec.abs_len x
+  have hextlen : ((Vec.f w s).abs.extend bs).len = s.length + bs.length := by
+    have : ∀ (a : BV) (l : List Bool), (a.extend l).len = a.len + l.length := by
+      intro a l
+      induction l generalizing a with
+      | nil => rfl
+      | cons c l ihl => simp only [BV.extend, List.foldl_cons] at ihl ⊢; rw [ihl]; simp only [BV.push, List.length_cons]; omega
+    rw [this]; rfl
+  refine ⟨key _ _ (C07_push _ hv b), ?_, ?_, ?_, ?_, ?_⟩
+  · have := key _ _ (C07_resize _ hv n b); rwa [BV.resize_len] at this
+  · have := key _ _ (C07_append _ x hv hx)
+    rw [show ((Vec.f w s).abs.append x.abs).len = s.length + x.len from by show s.length + x.abs.len = _; rw [hxl]] at this
+    exact this
+  · have := key _ _ (C07_prepend _ x hv hx)
+    rw [show ((Vec.f w s).abs.prepend x.abs).len = s.length + x.len from by show s.length + x.abs.len = _; rw [hxl]] at this
+    exact this
+  · have := key _ _ (C07_insert _ x hv hx i hi)
+    rw [show ((Vec.f w s).abs.insert i x.abs).len = s.length + x.len from by show s.length + x.abs.len = _; rw [hxl]] at this
+    exact this
+  · have := key _ _ (C07_extend _ hv bs); rwa [hextlen] at this
+
+/-- constructors and conversions beyond capacity return an error (never panic, never truncate) -/
+theorem C19_constructor_errors (hw : WOk w) (N : Nat) :
+    (∀ bytes big, N * w < bytes.length * 8 → Bvf.fromBytes w N bytes big = .err "NotEnoughCapacity") ∧
+    (∀ cs, N * w < cs.length → Bvf.fromBinary w N cs = .err "NotEnoughCapacity") ∧
+    (∀ cs, N * w < cs.length * 4 → Bvf.fromHex w N cs = .err "NotEnoughCapacity") ∧
+    (∀ input length big, N * w < length → Bvf.read w N input length big = .err "InvalidInput") ∧
+    (∀ W x, 1 ≤ N → x < 2 ^ W → N * w < BV.natBits x → Bvf.fromUInt w N W x = .err "NotEnoughCapacity") ∧
+    (∀ wJ xs, WOk wJ → N * w < xs.length * wJ → Bvf.fromSlice w N wJ xs = .err "NotEnoughCapacity") ∧
+    (∀ (x : Vec), x.Inv → N * w < x.len → Api.convert (.f w N) x = .err "NotEnoughCapacity") := by
+  refine ⟨fun bytes big h => Bvf.fromBytes_err N bytes big h,
+    fun cs h => (Bvf.fromBinary_spec hw.pos N cs).1 h,
+    fun cs h => (Bvf.fromHex_spec hw.pos ⟨2 * 2 ^ (Classical.choose hw), by have := Classical.choose_spec hw; omega⟩ N cs).1 h,
+    fun input length big h => Bvf.read_invalid N input length big h,
+    fun W x hN hx h => (Bvf.fromUInt_spec N W x hw.pos hN hx).1 h,
+    fun wJ xs hJ h => (Bvf.fromSlice_spec N xs (hw.compat hJ)).1 h, ?_⟩
+  intro x hx h
+  have hsrc : cnv_SrcOk w x.any := by
+    cases x with
+    | f w1 b => exact ⟨hx.1.compat hw, hx.2⟩
+    | d b => exact ⟨wok64.compat hw, hx⟩
+    | a c => cases c with
+      | fixed b => exact ⟨wok64.compat hw, hx.1⟩
+      | dynamic b => exact ⟨wok64.compat hw, hx⟩
+  have hl : x.any.len = x.len := by rw [← AnyBv.abs_len, Vec.any_abs, Vec.abs_len]
+  simp only [Api.convert, (Bvf.convert_spec N x.kind x.any hsrc).1 (by rw [hl]; exact h), liftF]
 
 end Bva
